@@ -185,6 +185,39 @@ class Injector:
         self.disk_at_fault = None
 
 
+def arm_next_write(invocation: Dict[str, Any], spec: Dict[str, Any]) -> None:
+    """ In the antiSMASH process: the next AntismashResults.write_to_file (however its caller hands over the
+        target: a path or an already opened handle) runs with one conversion fault armed """
+    from antismash.common import serialiser
+    original = serialiser.AntismashResults.write_to_file
+
+    def armed_write(self_results: Any, handle: Any) -> None:
+        injector = Injector()
+        injector.install(self_results)
+        # dry run on a throw-away target to learn the positions, then arm
+        injector.reset(None)
+        scratch = os.path.join(scratch_root(), f"dryrun_{os.getpid()}.json")
+        original(self_results, scratch)
+        os.unlink(scratch)
+        sites = sorted(site for site in injector.counts if spec["type"] == "call" or site.endswith(".to_json"))
+        site = sites[spec["site_rank"] % len(sites)]
+        fault = {"type": spec["type"], "site": site, "index": spec["index_rank"] % injector.counts[site],
+                 "kind": spec["kind"], "poison": spec["poison"], "depth": spec["depth"]}
+        invocation["_events"].append({"armed": fault, "target_is_path": isinstance(handle, str)})
+        injector.reset(fault)
+        try:
+            original(self_results, handle)
+        finally:
+            invocation["_events"].append({"fired": injector.fired})
+    serialiser.AntismashResults.write_to_file = armed_write
+
+
+def scratch_root() -> str:
+    from sim.world import pipeline as P
+    os.makedirs(P.SCRATCH_ROOT, exist_ok=True)
+    return P.SCRATCH_ROOT
+
+
 def _read(path: str) -> Optional[bytes]:
     try:
         with open(path, "rb") as handle:
@@ -337,7 +370,8 @@ class WriteFaults(Engine):
             return self._gen_directory(rng)
         base = HASHSEED._gen_pipeline(rng)  # pylint: disable=protected-access
         scenario = {"kind": kind, "records": base["records"], "hits": base["hits"], "domain_hits": base["domain_hits"],
-                    "domain_lengths": base["domain_lengths"], "extra_args": base["extra_args"]}
+                    "domain_lengths": base["domain_lengths"], "extra_args": base["extra_args"],
+                    "sideload_cli": base["sideload_cli"]}
         if rng.random() < 0.5:
             scenario["sideload"] = self._gen_sideload(rng, base["records"])
         if kind == "convert":
@@ -399,9 +433,10 @@ class WriteFaults(Engine):
                     "input_name": "input.gbk", "logfile": rng.choice(["inside", "outside", "none"]),
                     "explicit_output_dir": True, "level": rng.choice(["pipeline", "pipeline", "function"])}
         return {"kind": "directory", "entries": entries,
+                "dirname": rng.choice(["out", "out", "out", "run[1]", "results*", "my results", "a?b"]),
                 "exists": rng.random() < 0.9, "is_file": rng.random() < 0.05,
                 "mode": rng.choice(["sequence", "sequence", "reuse"]),
-                "input_name": rng.choice(["input.gbk", "genome.fa", "seq.gbk.gz", "genome.json.gbk"]),
+                "input_name": rng.choice(["input.gbk", "genome.fa", "seq.gbk.gz", "contigs.fa.gz", "genome.json.gbk", "old.json.bz2.gbk"]),
                 "logfile": rng.choice(["inside", "outside", "none"]),
                 "explicit_output_dir": rng.random() < 0.8,
                 "level": rng.choice(["function", "function", "pipeline"])}
@@ -420,7 +455,7 @@ class WriteFaults(Engine):
         outdir = os.path.join(work, "out")
         infile = os.path.join(work, "input.gbk")
         P.write_genbank(infile, scenario["records"])
-        args = P.base_args(outdir) + list(scenario.get("extra_args", []))
+        args = P.base_args(outdir) + list(scenario.get("extra_args", [])) + list(scenario.get("sideload_cli", []))
         if scenario.get("sideload"):
             side = os.path.join(work, "sideload.json")
             with open(side, "w", encoding="utf-8") as handle:
@@ -528,30 +563,7 @@ class WriteFaults(Engine):
             spec = scenario["fault"]
 
             def hook(invocation: Dict[str, Any]) -> None:
-                from antismash.common import serialiser
-                original = serialiser.AntismashResults.write_to_file
-
-                def armed_write(self_results: Any, handle: Any) -> None:
-                    injector = Injector()
-                    injector.install(self_results)
-                    # dry run on a throw-away target to learn the positions, then arm
-                    injector.reset(None)
-                    scratch = str(handle) + ".dryrun"
-                    original(self_results, scratch)
-                    os.unlink(scratch)
-                    sites = sorted(site for site in injector.counts
-                                   if spec["type"] == "call" or site.endswith(".to_json"))
-                    site = sites[spec["site_rank"] % len(sites)]
-                    index = spec["index_rank"] % injector.counts[site]
-                    fault = {"type": spec["type"], "site": site, "index": index, "kind": spec["kind"],
-                             "poison": spec["poison"], "depth": spec["depth"]}
-                    invocation["_events"].append({"armed": fault})
-                    injector.reset(fault)
-                    try:
-                        original(self_results, handle)
-                    finally:
-                        invocation["_events"].append({"fired": injector.fired})
-                serialiser.AntismashResults.write_to_file = armed_write
+                arm_next_write(invocation, spec)
             reuse_args = [arg for arg in inv["args"]]
             second = dict(inv, args=reuse_args + ["--reuse-results", target], input=None, hits=[], domain_hits={})
             faulted = P.invoke(second, hook)
@@ -600,7 +612,7 @@ class WriteFaults(Engine):
         work = P.scratch_dir("c20d_")
         trace: List[Any] = []
         try:
-            outdir = os.path.join(work, "out")
+            outdir = os.path.join(work, scenario.get("dirname", "out"))
             logfile = {"inside": os.path.join(outdir, "log.txt"), "outside": os.path.join(work, "log.txt"),
                        "none": ""}[scenario["logfile"]]
             if scenario["exists"]:
@@ -616,9 +628,12 @@ class WriteFaults(Engine):
             if reuse:
                 input_path = os.path.join(outdir if scenario["exists"] and not scenario["is_file"] else work, "prev.json")
             else:
-                name = scenario["input_name"].replace(".gz", "")
+                name = scenario["input_name"]
+                if scenario["level"] != "function":
+                    name = name.replace(".gz", "")     # the pipeline itself has to be able to read the input
                 if not scenario["explicit_output_dir"]:
-                    name = "out" + os.path.splitext(name)[1]   # so that the derived directory is <cwd>/out
+                    # so that the derived directory is <cwd>/<dirname>
+                    name = scenario.get("dirname", "out") + os.path.splitext(name)[1]
                 input_path = os.path.join(work, name)
                 P.write_genbank(input_path, records)
 
@@ -814,7 +829,7 @@ class WriteFaults(Engine):
     def sample_view(self, scenario: Dict[str, Any], result: RunResult) -> Any:
         view = {"kind": scenario["kind"]}
         if scenario["kind"] == "directory":
-            view.update({k: scenario[k] for k in ("entries", "mode", "logfile", "level", "exists", "is_file")})
+            view.update({k: scenario.get(k) for k in ("entries", "dirname", "mode", "logfile", "level", "exists", "is_file")})
         else:
             view["records"] = [[r["id"], len(r["seq"]), len(r["genes"])] for r in scenario["records"]]
             view["hits"] = len(scenario["hits"])
